@@ -289,6 +289,10 @@ def _model(case, ctx, d):
     spec = random_spec(rng, raw=dt, raw_parts=int(rng.integers(1, 4)), n_samples=n_samples, rate=chunk / 600.,
                        dtype_times=['uint64', 'int64', 'uint32', 'int32'][int(rng.integers(0, 4))],
                        ns=int(rng.integers(8, 30)), shanks=[0, 2][int(rng.integers(0, 2))])
+    if case['seed'][2] % 6 == 4:
+        # every spike belongs to one template (the others are unused)
+        spec.spike_templates[:] = int(rng.integers(0, spec.n_templates))
+        spec.spike_clusters = spec.spike_templates.copy()
     # force spikes at both ends
     s = spec.spike_samples
     s[0], s[-1] = 0, n_samples - 1
@@ -327,8 +331,14 @@ def _model(case, ctx, d):
             if dd:
                 ctx.violation('window_mismatch', desc, 'get_waveforms (no store): ' + dd, dict(feats, store=False))
         # build the store through the public API, then query it
-        rs = call(m.save_spikes_subset_waveforms, max_n_spikes_per_template=int(rng.integers(2, 8)),
-                  max_n_channels=int(rng.integers(1, 5)), sample2unit=factor)
+        k_sub, c_sub = int(rng.integers(2, 8)), int(rng.integers(1, 5))
+        if case['seed'][2] % 3 == 0:
+            # history: an earlier export of every spike with another unit factor; then the same selection again with the
+            # factor that is judged (the store must carry the new factor)
+            k_sub = 1000
+            call(m.save_spikes_subset_waveforms, max_n_spikes_per_template=k_sub, max_n_channels=c_sub, sample2unit=factor * 4 + 1)
+            ctx.mon('store_reexported_other_factor')
+        rs = call(m.save_spikes_subset_waveforms, max_n_spikes_per_template=k_sub, max_n_channels=c_sub, sample2unit=factor)
         fs = dict(feats, store=True)
         if not rs.ok:
             ctx.violation('route_raised', desc, 'save_spikes_subset_waveforms raised %r' % rs.exc,
